@@ -304,8 +304,9 @@ def countUnderscores (p : List Name) : Nat :=
   if n == p.length then 0 else n
 
 def stripCommon : List Name → List Name → List Name → (List Name × List Name × List Name)
-  | a :: ra@(_ :: _), b :: rb@(_ :: _), acc =>
-    if eqFold a.s b.s then stripCommon ra rb (acc ++ [a]) else (a :: ra, b :: rb, acc)
+  | a :: ra, b :: rb, acc =>
+    if ra.isEmpty || rb.isEmpty then (a :: ra, b :: rb, acc)
+    else if eqFold a.s b.s then stripCommon ra rb (acc ++ [a]) else (a :: ra, b :: rb, acc)
   | s, d, acc => (s, d, acc)
 
 /-- the underscore phase of `EdgeID.resolve` -/
@@ -393,13 +394,15 @@ def IR.descendLookup (ir : IR) (m : Owner) (common : List Name) : IR × Option O
 def prohibitedInEdge (p : List Name) : Bool :=
   p.any fun n => !n.q && (inTableS simpleReserved n.s || inTableS holders n.s)
 
-def newIndex (es : List ENode) : Nat :=
-  match idxRule with
+/-- the index of a new edge given the existing edges of its class: `count` is `index := len(ea)`, `maxPlus1` one more than
+    the largest existing index -/
+def newIndex (rule : IdxRule) (es : List ENode) : Nat :=
+  match rule with
   | .count => es.length
   | .maxPlus1 => es.foldl (fun acc e => max acc (e.idx + 1)) 0
 
 /-- `createEdge` + `createEdge2` for one AST edge written in map `scope`; `m` is the map the edge id is resolved from -/
-def IR.createEdge (ir : IR) (scope : Owner) (e : EdgeAst) (ctx : Nat) : IR × Except Err Nat :=
+def IR.createEdge (ir : IR) (rule : IdxRule) (scope : Owner) (e : EdgeAst) (ctx : Nat) : IR × Except Err Nat :=
   if ir.inEdge ir.depthFuel scope then (ir, .error .edgeInEdge) else
   match ir.resolve scope e.src e.dst with
   | .error _ => (ir, .error .underscore)
@@ -425,7 +428,7 @@ def IR.createEdge (ir : IR) (scope : Owner) (e : EdgeAst) (ctx : Nat) : IR × Ex
             if m2 != m || sp2.length != sp.length || dp2.length != dp.length then (ir, .error (.gap "second resolve moved the edge")) else
             let same := (ir.edgesOf m).filter fun x => x.matchesEID { src := sp, dst := dp, sa := e.sa, da := e.da, idx := none }
             let id := ir.next
-            let node : ENode := { id, owner := m, src := sp, dst := dp, sa := e.sa, da := e.da, idx := newIndex same,
+            let node : ENode := { id, owner := m, src := sp, dst := dp, sa := e.sa, da := e.da, idx := newIndex rule same,
                                   refs := [{ ctx := some ctx, scope := scope, pos := e.pos }], pos := e.pos }
             ({ ir with edges := ir.edges ++ [node], next := id + 1 }, .ok id)
           | _ => (ir, .error (.gap "second resolve found a common prefix"))
@@ -566,7 +569,7 @@ def IR.compileEdgeVals (ir : IR) (ctx : Nat) (scope : Owner) (d : FDecl) : List 
     ir.compileEdgeVals ctx scope d es (acc ++ t)
 
 /-- one flattened declaration compiled into map `scope` -/
-def IR.evalDecl (ir : IR) (scope : Owner) (d : FDecl) : IR × List Owner :=
+def IR.evalDecl (ir : IR) (rule : IdxRule) (scope : Owner) (d : FDecl) : IR × List Owner :=
   match d.edge with
   | none =>
     match ir.EnsureField scope d.key (some (none, scope)) true with
@@ -597,7 +600,7 @@ def IR.evalDecl (ir : IR) (scope : Owner) (d : FDecl) : IR × List Owner :=
           ir.appendFieldRefs sc e.dst ref) ir
         ir.compileEdgeVals ctx sc d ea []
       else
-        match ir.createEdge sc e ctx with
+        match ir.createEdge rule sc e ctx with
         | (ir, .error err) => (ir.addErr err, [])
         | (ir, .ok x) => ir.compileEdgeVals ctx sc d [x] []
 
@@ -608,21 +611,25 @@ structure St where
   stack : List (List Owner) := [[.root]]
 deriving Repr, Inhabited
 
-def evalScopes (ir : IR) (d : FDecl) : List Owner → List Owner → IR × List Owner
+def evalScopes (rule : IdxRule) (ir : IR) (d : FDecl) : List Owner → List Owner → IR × List Owner
   | [], acc => (ir, acc)
   | sc :: rest, acc =>
-    let (ir, t) := ir.evalDecl sc d
-    evalScopes ir d rest (acc ++ t)
+    let (ir, t) := ir.evalDecl rule sc d
+    evalScopes rule ir d rest (acc ++ t)
 
-def step (st : St) : Item → St
+def step (rule : IdxRule) (st : St) : Item → St
   | .close => { st with stack := st.stack.drop 1 }
   | .decl d =>
     let scopes := st.stack.headD []
-    let (ir, targets) := evalScopes st.ir d scopes []
+    let (ir, targets) := evalScopes rule st.ir d scopes []
     if d.opens then { ir, stack := targets :: st.stack } else { st with ir }
 
-def evalItems (items : List Item) : St := items.foldl step {}
+def evalItems (rule : IdxRule) (items : List Item) : St := items.foldl (step rule) {}
 
-def eval (prog : List Decl) : IR := (evalItems (flattenList prog)).ir
+/-- the IR of a program under a given index rule -/
+def evalWith (rule : IdxRule) (prog : List Decl) : IR := (evalItems rule (flattenList prog)).ir
+
+/-- … under the rule read off the source (`D2V.Gen.SemKw.idxRule`) -/
+def eval (prog : List Decl) : IR := evalWith idxRule prog
 
 end D2V.Sem
